@@ -109,7 +109,9 @@ class FakeJira:
     def __init__(self):
         self.issues = {}
         self.fail_next = None   # None | int status code
+        self.fail_left = None   # how many calls fail (None: one)
         self.calls = 0
+        self.failed = 0
 
     def make_class(jira):
         from jira.exceptions import JIRAError
@@ -122,7 +124,11 @@ class FakeJira:
                 jira.calls += 1
                 if jira.fail_next is not None:
                     code = jira.fail_next
-                    jira.fail_next = None
+                    left = (jira.fail_left or 1) - 1
+                    jira.fail_left = left if left > 0 else None
+                    if left <= 0:
+                        jira.fail_next = None
+                    jira.failed += 1
                     raise JIRAError(status_code=code, text='simulated')
                 data = jira.issues.get(issue_id)
                 if data is None:
